@@ -61,6 +61,20 @@ CHECKS = {
             "operation log of the first histories is replayed with python's exact int (history checker); "
             "DoubleSize<u8> multiply/divide enumerated completely, wider helpers against native wide arithmetic.",
             "operands and histories are sampled except for the 8-bit helper", "3/C19"),
+    "C12": ("model-based runtime monitor (abstract JSON document model compared after every step) under ASan+UBSan+ledger",
+            "Random operation histories over four aliased Value roots with nested targets; after every operation all roots "
+            "are walked through the public readers and compared with the model; three character widths, hooks on/off.",
+            "histories are sampled; operations whose effect the statement does not fix are not generated (listed in the evidence assumptions)", "3/C12"),
+    "C08": ("runtime round-trip monitor over history-generated trees + offline conformance check of the emitted text with python3's strict json",
+            "Every container state reached by the C12 histories is stringified (17 digits), re-parsed from an exact-size "
+            "buffer and compared with the model's defined content; the text must be a fixed point and, for UTF-8, must be "
+            "accepted by an independent strict RFC 8259 parser with the same denotation.",
+            "trees are those the histories reach; python3 json is the reference for validity", "3/C08"),
+    "C16": ("allocation-ledger conservation monitor on the library's own Allocate/Deallocate seam + ASan/LSan over error-path workloads",
+            "Per-case conservation (ledger empty when all owners are gone), exactly-once release and no foreign release are "
+            "checked online over rejected/truncated JSON, Value/hash-array/container histories (and template cache lifetimes); "
+            "ASan adds use-after-free/double-free, LSan the process-exit view.",
+            "only executed paths; allocation failure is not injected", "3/C16"),
 }
 
 PENDING = {}
